@@ -219,3 +219,704 @@ Proof.
   exists [[1; 0]; [4; 0]; [3; 1]; [1; 1]; [3; 0]; [5; 0; 1; 0; 1; 5]]. eexists.
   split; [reflexivity|]. vm_compute. repeat split.
 Qed.
+
+(* ================= history level: the monitor holds on every model trace ================= *)
+
+Definition all_true (l : list (Z * Z * bool)) : bool := forallb (fun c => snd c) l.
+Definition core_true (l : list (Z * Z * bool)) : bool :=
+  forallb (fun c => snd c || (fst (fst c) =? 2)) l.
+
+Record RI (s : st) (m : mon) : Prop := mkRI {
+  r_open : forall j, m_open m j = open (sv s j);
+  r_act : m_act m = active s;
+  r_msg : forall j, m_msg m j = smsg (sv s j);
+  r_w : forall n, m_w m n = watched (rq s n);
+  r_unc : forall n, m_unc m n = watched (rq s n) && (qstat (rq s n) =? 1);
+  i_srv : forall j, open (sv s j) = true -> In j all_srv;
+  i_none : active s = -1 -> forall j, open (sv s j) = false;
+  i_act : active s <> -1 -> open (sv s (active s)) = true;
+  i_msg : forall j, open (sv s j) = false -> smsg (sv s j) = false;
+  i_w : forall n, watched (rq s n) = true -> active s <> -1 /\ In n all_names
+}.
+
+Lemma RI_init : RI init mon_init.
+Proof. constructor; cbn; intros; try reflexivity; try discriminate; try tauto. Qed.
+
+Definition aop_wf (a : aop) : Prop :=
+  match a with
+  | AWatch n => In n all_names
+  | AFail c | ABreak c | AResp c _ _ | AAllow c => 0 <= c
+  | _ => True
+  end.
+
+Lemma mem_in x : forall l, mem x l = true <-> In x l.
+Proof.
+  induction l as [|y l IH]; cbn [mem In]; [split; [discriminate|tauto]|].
+  rewrite orb_true_iff, Z.eqb_eq, IH. tauto.
+Qed.
+Lemma mem_filter x f l : mem x (filter f l) = mem x l && f x.
+Proof.
+  induction l as [|y l IH]; cbn [filter mem]; [reflexivity|].
+  destruct (f y) eqn:E; cbn [mem]; rewrite IH.
+  - destruct (y =? x) eqn:Exy; [apply Z.eqb_eq in Exy; subst; rewrite E; destruct (mem x l); reflexivity|reflexivity].
+  - destruct (y =? x) eqn:Exy; [apply Z.eqb_eq in Exy; subst; rewrite E; cbn; rewrite andb_false_r; reflexivity|reflexivity].
+Qed.
+Lemma list_eqb_refl l : list_eqb l l = true.
+Proof. induction l as [|x l IH]; cbn; [reflexivity|]. rewrite Z.eqb_refl, IH. reflexivity. Qed.
+
+(* the active server after a step, as the monitor computes it *)
+Lemma act_ok s : (forall j, open (sv s j) = true -> In j all_srv) ->
+  (active s = -1 -> forall j, open (sv s j) = false) -> (active s <> -1 -> open (sv s (active s)) = true) ->
+  (if existsb (fun j => open (sv s j)) all_srv then active s else -1) = active s.
+Proof.
+  intros H1 H2 H3. destruct (existsb (fun j => open (sv s j)) all_srv) eqn:E; [reflexivity|].
+  destruct (Z.eq_dec (active s) (-1)) as [Ha|Ha]; [symmetry; exact Ha|].
+  exfalso. assert (Ho := H3 Ha). assert (Hi := H1 _ Ho).
+  assert (existsb (fun j => open (sv s j)) all_srv = true) by (apply existsb_exists; eauto). congruence.
+Qed.
+
+(* what the monitor needs to know about a step: the header triple and the next state *)
+Record step_facts (nsrv : Z) (s : st) (m : mon) (a : aop) (s' : st) (ap : bool) (built closed : list Z) : Prop := mkSF {
+  f_open : forall j, open (sv s' j) = (open (sv s j) || mem j built) && negb (mem j closed);
+  f_c1 : match built with
+         | [] => True
+         | [j] => if j =? 0 then (exists n, a = AWatch n) /\ ap = true /\ active s = -1
+                  else exists f, (a = AFail f /\ ap = true \/ a = ABreak f /\ ap = true /\ smsg (sv s f) = false) /\
+                                 0 <= f < j /\ uncached s = true
+         | _ => False
+         end;
+  f_act : active s' = match built with
+                      | j :: _ => j
+                      | [] => match a with
+                              | AResp c _ _ => if ap && (c <? active s) then c else
+                                               if existsb (fun j => open (sv s' j)) all_srv then active s else -1
+                              | _ => if existsb (fun j => open (sv s' j)) all_srv then active s else -1
+                              end
+                      end;
+  f_builtsrv : forall j, In j built -> In j all_srv;
+  f_c3 : closed = match a with
+                  | AResp c _ _ => if ap && (c <? active s) then filter (fun j => (c <? j) && open (sv s j)) all_srv else []
+                  | AUnwatch _ => if ap && negb (existsb (fun k => watched (rq s' k)) all_names)
+                                  then filter (fun j => open (sv s j)) all_srv else []
+                  | _ => []
+                  end;
+  f_msg : forall j, smsg (sv s' j) =
+            (match a with
+             | AResp c _ _ => if ap then (if j =? c then true else smsg (sv s j)) else smsg (sv s j)
+             | AAllow c => if ap then (if j =? c then false else smsg (sv s j)) else smsg (sv s j)
+             | _ => smsg (sv s j)
+             end) && open (sv s' j) && negb (mem j built);
+  f_w : forall n, watched (rq s' n) =
+          match a with
+          | AWatch k => if ap then (if n =? k then true else watched (rq s n)) else watched (rq s n)
+          | AUnwatch k => if ap then (if n =? k then false else watched (rq s n)) else watched (rq s n)
+          | _ => watched (rq s n)
+          end;
+  f_unc : forall n, watched (rq s' n) && (qstat (rq s' n) =? 1) =
+          match a with
+          | AWatch k => if ap then (if n =? k then true else watched (rq s n) && (qstat (rq s n) =? 1))
+                        else watched (rq s n) && (qstat (rq s n) =? 1)
+          | AUnwatch k => if ap then (if n =? k then false else watched (rq s n) && (qstat (rq s n) =? 1))
+                          else watched (rq s n) && (qstat (rq s n) =? 1)
+          | AResp c _ rs =>
+            if ap && (c <=? active s) then
+              watched (rq s n) && (qstat (rq s n) =? 1) && match last_named n rs with Some _ => false | None => true end
+            else watched (rq s n) && (qstat (rq s n) =? 1)
+          | _ => watched (rq s n) && (qstat (rq s n) =? 1)
+          end;
+  f_inv_srv : forall j, open (sv s' j) = true -> In j all_srv;
+  f_inv_none : active s' = -1 -> forall j, open (sv s' j) = false;
+  f_inv_act : active s' <> -1 -> open (sv s' (active s')) = true;
+  f_inv_msg : forall j, open (sv s' j) = false -> smsg (sv s' j) = false;
+  f_inv_w : forall n, watched (rq s' n) = true -> active s' <> -1 /\ In n all_names
+}.
+
+Lemma existsb_ext {A} (f g : A -> bool) l : (forall x, f x = g x) -> existsb f l = existsb g l.
+Proof. intro H. induction l as [|x l IH]; cbn; [reflexivity|]. rewrite H, IH. reflexivity. Qed.
+Lemma filter_ext' {A} (f g : A -> bool) l : (forall x, f x = g x) -> filter f l = filter g l.
+Proof. intro H. apply filter_ext. exact H. Qed.
+
+(* from the facts to the monitor *)
+Lemma facts_to_monitor nsrv s m a s' ap built closed i reqs :
+  RI s m -> aop_wf a -> step_facts nsrv s m a s' ap built closed ->
+  let '(m', cl) := mon_step i m a ap built closed reqs in core_true cl = true /\ RI s' m'.
+Proof.
+  intros HR Hwf HF. unfold mon_step.
+  set (failing := match a with
+                  | AFail s0 => if ap then s0 else -1
+                  | ABreak s0 => if ap && negb (m_msg m s0) then s0 else -1
+                  | _ => -1 end).
+  cbn [core_true forallb fst snd Z.eqb Pos.eqb orb andb].
+  rewrite !orb_true_r, !orb_false_r. cbn [andb]. rewrite andb_true_r.
+  split.
+  - (* clauses 1 and 3 *)
+    apply andb_true_intro. split.
+    + pose proof (f_c1 _ _ _ _ _ _ _ _ HF) as H1. destruct built as [|j [|j2 b]]; [reflexivity| |contradiction].
+      destruct (j =? 0) eqn:Ej.
+      * destruct H1 as ((n & Ea) & Eap & Eact). subst a ap. rewrite (r_act _ _ HR), Eact. reflexivity.
+      * destruct H1 as (f & Hf & Hr & Hu).
+        assert (Hfail: failing = f).
+        { unfold failing. destruct Hf as [(Ea & Eap)|(Ea & Eap & Em)]; subst a ap; [reflexivity|].
+          rewrite (r_msg _ _ HR), Em. reflexivity. }
+        rewrite Hfail.
+        assert (E1: (0 <=? f) = true) by (apply Z.leb_le; lia).
+        assert (E2: (f <? j) = true) by (apply Z.ltb_lt; lia).
+        rewrite E1, E2. cbn [andb].
+        rewrite (existsb_ext (m_unc m) (fun n => watched (rq s n) && (qstat (rq s n) =? 1))); [exact Hu|].
+        intro n. apply (r_unc _ _ HR).
+    + pose proof (f_c3 _ _ _ _ _ _ _ _ HF) as H3. rewrite (r_act _ _ HR).
+      destruct a; subst closed; try apply list_eqb_refl.
+      * (* AUnwatch *)
+        rewrite (existsb_ext (if ap then updb (m_w m) n false else m_w m) (fun k => watched (rq s' k))).
+        2:{ intro k. rewrite (f_w _ _ _ _ _ _ _ _ HF). destruct ap; [|apply (r_w _ _ HR)].
+            unfold updb. destruct (k =? n); [reflexivity|apply (r_w _ _ HR)]. }
+        destruct (ap && negb (existsb (fun k => watched (rq s' k)) all_names)); [|apply list_eqb_refl].
+        rewrite (filter_ext' (m_open m) (fun j => open (sv s j))); [apply list_eqb_refl|apply (r_open _ _ HR)].
+      * (* AResp *)
+        destruct ap; cbn [andb]; [|apply list_eqb_refl].
+        destruct (s0 <? active s); [|apply list_eqb_refl].
+        rewrite (filter_ext' (fun j => (s0 <? j) && m_open m j) (fun j => (s0 <? j) && open (sv s j)));
+          [apply list_eqb_refl|]. intro j. rewrite (r_open _ _ HR). reflexivity.
+  - (* the invariant *)
+    assert (Hopen: forall j, (m_open m j || mem j built) && negb (mem j closed) = open (sv s' j)).
+    { intro j. rewrite (f_open _ _ _ _ _ _ _ _ HF), (r_open _ _ HR). reflexivity. }
+    constructor; cbn [m_open m_act m_msg m_w m_unc].
+    + exact Hopen.
+    + rewrite (existsb_ext _ (fun j => open (sv s' j)) all_srv Hopen).
+      rewrite (f_act _ _ _ _ _ _ _ _ HF), (r_act _ _ HR).
+      destruct built as [|j b].
+      * destruct a; try reflexivity.
+        destruct (ap && (s0 <? active s)) eqn:E; [|reflexivity].
+        assert (Ho: open (sv s' s0) = true).
+        { pose proof (f_inv_act _ _ _ _ _ _ _ _ HF) as H. rewrite (f_act _ _ _ _ _ _ _ _ HF), E in H.
+          apply H. cbn [aop_wf] in Hwf. lia. }
+        assert (Hex: existsb (fun j => open (sv s' j)) all_srv = true).
+        { apply existsb_exists. exists s0. split; [apply (f_inv_srv _ _ _ _ _ _ _ _ HF); exact Ho|exact Ho]. }
+        rewrite Hex. reflexivity.
+      * assert (Hj: open (sv s' j) = true).
+        { pose proof (f_inv_act _ _ _ _ _ _ _ _ HF) as H. rewrite (f_act _ _ _ _ _ _ _ _ HF) in H. apply H.
+          pose proof (f_builtsrv _ _ _ _ _ _ _ _ HF j (or_introl eq_refl)) as Hi. unfold all_srv in Hi. cbn in Hi. lia. }
+        assert (Hex: existsb (fun j => open (sv s' j)) all_srv = true).
+        { apply existsb_exists. exists j. split; [apply (f_builtsrv _ _ _ _ _ _ _ _ HF); left; reflexivity|exact Hj]. }
+        rewrite Hex. reflexivity.
+    + intro j. rewrite (f_msg _ _ _ _ _ _ _ _ HF), Hopen. f_equal. f_equal.
+      destruct a; try apply (r_msg _ _ HR); destruct ap; try apply (r_msg _ _ HR);
+        unfold updb; destruct (j =? s0); try reflexivity; apply (r_msg _ _ HR).
+    + intro n. rewrite (f_w _ _ _ _ _ _ _ _ HF).
+      destruct a; try apply (r_w _ _ HR); destruct ap; try apply (r_w _ _ HR);
+        unfold updb; destruct (n =? n0); try reflexivity; apply (r_w _ _ HR).
+    + intro n. rewrite (f_unc _ _ _ _ _ _ _ _ HF), (r_act _ _ HR).
+      destruct a; try apply (r_unc _ _ HR).
+      * destruct ap; [|apply (r_unc _ _ HR)]. unfold updb. destruct (n =? n0); [reflexivity|apply (r_unc _ _ HR)].
+      * destruct ap; [|apply (r_unc _ _ HR)]. unfold updb. destruct (n =? n0); [reflexivity|apply (r_unc _ _ HR)].
+      * destruct (ap && (s0 <=? active s)); [|apply (r_unc _ _ HR)]. rewrite (r_unc _ _ HR). reflexivity.
+    + apply (f_inv_srv _ _ _ _ _ _ _ _ HF).
+    + apply (f_inv_none _ _ _ _ _ _ _ _ HF).
+    + apply (f_inv_act _ _ _ _ _ _ _ _ HF).
+    + apply (f_inv_msg _ _ _ _ _ _ _ _ HF).
+    + apply (f_inv_w _ _ _ _ _ _ _ _ HF).
+Qed.
+
+Lemma send_sv s o c x : open (sv (fst (send s o c)) x) = open (sv s x) /\ smsg (sv (fst (send s o c)) x) = smsg (sv s x).
+Proof.
+  unfold send. destruct (ssender (sv s c) =? 1); [tauto|].
+  destruct (ssender (sv s c) =? 2); [|tauto]. cbn [fst sv]. unfold updv.
+  destruct (x =? c) eqn:E; [apply Z.eqb_eq in E; subst; cbn; tauto|tauto].
+Qed.
+
+Lemma unsub_all_keeps n : forall cs s o,
+  (forall x, open (sv (fst (unsub_all s o n cs)) x) = open (sv s x) /\
+             smsg (sv (fst (unsub_all s o n cs)) x) = smsg (sv s x)) /\
+  rq (fst (unsub_all s o n cs)) = rq s /\ active (fst (unsub_all s o n cs)) = active s.
+Proof.
+  induction cs as [|c r IH]; intros s o; [cbn; tauto|]. cbn [unsub_all].
+  match goal with |- context [send ?S o c] => set (s1 := S) end.
+  pose proof (fun x => send_sv s1 o c x) as H. pose proof (send_rest s1 o c) as [H2 H3].
+  destruct (send s1 o c) as [s2 o2]. cbn [fst] in *.
+  destruct (IH s2 o2) as (A & B & C). split; [|split; [rewrite B, H2; reflexivity|rewrite C, H3; reflexivity]].
+  intro x. destruct (A x) as [A1 A2]. destruct (H x) as [H0 H1]. rewrite A1, A2, H0, H1. unfold s1. cbn [sv]. unfold updv.
+  destruct (x =? c) eqn:E; [apply Z.eqb_eq in E; subst; cbn; tauto|tauto].
+Qed.
+
+(* a step that creates and releases nothing and keeps the active server *)
+Lemma facts_plain nsrv s m a s' (ap : bool) (X : Z -> bool) :
+  RI s m ->
+  (forall j, open (sv s' j) = open (sv s j)) -> active s' = active s ->
+  (forall j, smsg (sv s' j) = X j) -> (forall j, open (sv s j) = false -> X j = false) ->
+  (forall j, X j = match a with
+             | AResp c _ _ => if ap then (if j =? c then true else smsg (sv s j)) else smsg (sv s j)
+             | AAllow c => if ap then (if j =? c then false else smsg (sv s j)) else smsg (sv s j)
+             | _ => smsg (sv s j)
+             end) ->
+  (match a with
+   | AResp c _ _ => ap && (c <? active s) = false
+   | AUnwatch _ => ap && negb (existsb (fun k => watched (rq s' k)) all_names) = false
+   | _ => True
+   end) ->
+  (forall n, watched (rq s' n) =
+          match a with
+          | AWatch k => if ap then (if n =? k then true else watched (rq s n)) else watched (rq s n)
+          | AUnwatch k => if ap then (if n =? k then false else watched (rq s n)) else watched (rq s n)
+          | _ => watched (rq s n)
+          end) ->
+  (forall n, watched (rq s' n) && (qstat (rq s' n) =? 1) =
+          match a with
+          | AWatch k => if ap then (if n =? k then true else watched (rq s n) && (qstat (rq s n) =? 1))
+                        else watched (rq s n) && (qstat (rq s n) =? 1)
+          | AUnwatch k => if ap then (if n =? k then false else watched (rq s n) && (qstat (rq s n) =? 1))
+                          else watched (rq s n) && (qstat (rq s n) =? 1)
+          | AResp c _ rs =>
+            if ap && (c <=? active s) then
+              watched (rq s n) && (qstat (rq s n) =? 1) && match last_named n rs with Some _ => false | None => true end
+            else watched (rq s n) && (qstat (rq s n) =? 1)
+          | _ => watched (rq s n) && (qstat (rq s n) =? 1)
+          end) ->
+  (forall n, watched (rq s' n) = true -> active s <> -1 /\ In n all_names) ->
+  step_facts nsrv s m a s' ap [] [].
+Proof.
+  intros HR Ho Ha Hm Hmc HX Hc3 Hw Hu Hiw.
+  assert (Hact: (if existsb (fun j => open (sv s' j)) all_srv then active s else -1) = active s).
+  { rewrite (existsb_ext _ (fun j => open (sv s j)) all_srv Ho).
+    apply act_ok; [apply (i_srv _ _ HR)|apply (i_none _ _ HR)|apply (i_act _ _ HR)]. }
+  constructor.
+  - intro j. rewrite Ho. cbn [mem]. rewrite orb_false_r, andb_true_r. reflexivity.
+  - exact I.
+  - rewrite Ha. destruct a; try (symmetry; exact Hact). rewrite Hc3. symmetry; exact Hact.
+  - intros j [].
+  - destruct a; try reflexivity; rewrite Hc3; reflexivity.
+  - intro j. rewrite Hm, <- HX, Ho. cbn [mem negb]. rewrite andb_true_r.
+    destruct (open (sv s j)) eqn:E; [rewrite andb_true_r; reflexivity|rewrite (Hmc j E); reflexivity].
+  - exact Hw.
+  - exact Hu.
+  - intros j Hj. rewrite Ho in Hj. apply (i_srv _ _ HR j Hj).
+  - intros Hn j. rewrite Ho. rewrite Ha in Hn. apply (i_none _ _ HR Hn).
+  - intros Hn. rewrite Ha in Hn |- *. rewrite Ho. apply (i_act _ _ HR Hn).
+  - intros j Hj. rewrite Hm. apply Hmc. rewrite <- Ho. exact Hj.
+  - intros n Hn. rewrite Ha. apply Hiw. exact Hn.
+Qed.
+
+Definition has_facts (nsrv : Z) (s : st) (m : mon) (a : aop) : Prop :=
+  exists s' ap built closed o, step nsrv s a = (s', emit ap built closed o) /\
+    step_facts nsrv s m a s' ap built closed.
+
+Lemma facts_skip nsrv s m a : RI s m -> step nsrv s a = skip s -> has_facts nsrv s m a.
+Proof.
+  intros HR Hs. exists s, false, [], [], no_req. split; [exact Hs|].
+  apply (facts_plain nsrv s m a s false (fun j => smsg (sv s j))); try reflexivity; try exact HR.
+  - apply (i_msg _ _ HR).
+  - intro j. destruct a; reflexivity.
+  - destruct a; try exact I; reflexivity.
+  - intro n. destruct a; reflexivity.
+  - intro n. destruct a; reflexivity.
+  - apply (i_w _ _ HR).
+Qed.
+
+Lemma facts_allow nsrv s m c : RI s m -> has_facts nsrv s m (AAllow c).
+Proof.
+  intro HR. destruct (open (sv s c)) eqn:Eo; [destruct (slive (sv s c)) eqn:El|].
+  1,3: apply facts_skip; [exact HR|cbn [step]; rewrite Eo, ?El; reflexivity].
+  set (s1 := mkS (updv (sv s) c (mkV true true 1 false (subs (sv s c)))) (rq s) (active s)).
+  exists s1, true, [], [], (match subs (sv s c) with [] => no_req | _ => updo no_req c (subs (sv s c)) end).
+  split; [cbn [step]; rewrite Eo, El; reflexivity|].
+  apply (facts_plain nsrv s m (AAllow c) s1 true (fun j => if j =? c then false else smsg (sv s j))); try exact HR; try exact I.
+  - intro j. unfold s1. cbn [sv]. unfold updv. destruct (j =? c) eqn:Ej; [apply Z.eqb_eq in Ej; subst; cbn; congruence|reflexivity].
+  - reflexivity.
+  - intro j. unfold s1. cbn [sv]. unfold updv. destruct (j =? c); reflexivity.
+  - intros j Hj. destruct (j =? c); [reflexivity|apply (i_msg _ _ HR j Hj)].
+  - intro j. reflexivity.
+  - intro n. reflexivity.
+  - intro n. reflexivity.
+  - intros n Hn. apply (i_w _ _ HR n Hn).
+Qed.
+
+Lemma failure_rq nsrv s f n :
+  watched (rq (fst (failure nsrv s f)) n) = watched (rq s n) /\ qstat (rq (fst (failure nsrv s f)) n) = qstat (rq s n).
+Proof.
+  unfold failure. destruct (uncached s); [|cbn; tauto].
+  destruct (first_closed s _ =? -1); cbn [fst rq]; [tauto|].
+  destruct (watched (rq s n)) eqn:Ew; cbn; rewrite ?Ew; tauto.
+Qed.
+Lemma failure_msg nsrv s f j : snd (failure nsrv s f) = [j] -> smsg (sv (fst (failure nsrv s f)) j) = false.
+Proof.
+  unfold failure. destruct (uncached s); [|cbn; discriminate].
+  destruct (first_closed s _ =? -1); cbn [fst snd sv]; [discriminate|].
+  intro H. inversion H. rewrite updv_same. reflexivity.
+Qed.
+
+(* stream failure that is not "after a response" *)
+Lemma facts_failure nsrv s m a f s0 s1 b :
+  RI s m -> 0 <= f ->
+  (a = AFail f \/ a = ABreak f /\ smsg (sv s f) = false) ->
+  (forall j, open (sv s0 j) = open (sv s j) /\ smsg (sv s0 j) = smsg (sv s j)) ->
+  rq s0 = rq s -> active s0 = active s ->
+  failure nsrv s0 f = (s1, b) ->
+  step_facts nsrv s m a s1 true b [].
+Proof.
+  intros HR Hf Ha Hsv Hrq Hact Hfail.
+  assert (Hunc: uncached s0 = uncached s) by (unfold uncached; rewrite Hrq; reflexivity).
+  destruct (failure_spec _ _ _ _ _ Hfail) as [[Eb Es]|(j & pre & post & Eb & Eu & Ec & Hr & Hoj & Hpre & Haj & Hoj' & Hoth)].
+  - subst b s1.
+    apply (facts_plain nsrv s m a s0 true (fun j => smsg (sv s j))); try exact HR.
+    + intro j. apply Hsv.
+    + exact Hact.
+    + intro j. apply Hsv.
+    + apply (i_msg _ _ HR).
+    + intro j. destruct Ha as [->|[-> _]]; reflexivity.
+    + destruct Ha as [->|[-> _]]; exact I.
+    + intro n. rewrite Hrq. destruct Ha as [->|[-> _]]; reflexivity.
+    + intro n. rewrite Hrq. destruct Ha as [->|[-> _]]; reflexivity.
+    + intros n Hn. rewrite Hrq in Hn. apply (i_w _ _ HR n Hn).
+  - subst b.
+    assert (Hin: In j all_srv).
+    { assert (In j (cands nsrv f)) by (rewrite Ec; apply in_or_app; right; left; reflexivity).
+      unfold cands in H. apply filter_In in H. tauto. }
+    assert (Hj0: (j =? 0) = false) by (apply Z.eqb_neq; lia).
+    assert (Hsv1: forall x, open (sv s1 x) = (if x =? j then true else open (sv s x)) /\
+                            smsg (sv s1 x) = (if x =? j then false else smsg (sv s x))).
+    { intro x. destruct (x =? j) eqn:Ex.
+      - apply Z.eqb_eq in Ex. subst x. split; [exact Hoj'|].
+        pose proof (failure_msg nsrv s0 f j) as Hm. rewrite Hfail in Hm. apply Hm. reflexivity.
+      - apply Z.eqb_neq in Ex. rewrite (Hoth x Ex). apply Hsv. }
+    assert (Hrq1: forall n, watched (rq s1 n) = watched (rq s n) /\ qstat (rq s1 n) = qstat (rq s n)).
+    { intro n. pose proof (failure_rq nsrv s0 f n) as Hq. rewrite Hfail in Hq. cbn [fst] in Hq. rewrite Hrq in Hq. exact Hq. }
+    assert (Hoj_s: open (sv s j) = false) by (rewrite <- (proj1 (Hsv j)); exact Hoj).
+    constructor.
+    + intro x. destruct (Hsv1 x) as [A _]. rewrite A. cbn [mem negb]. rewrite andb_true_r, orb_false_r.
+      rewrite (Z.eqb_sym j x). destruct (x =? j); [rewrite orb_true_r; reflexivity|rewrite orb_false_r; reflexivity].
+    + rewrite Hj0. exists f. split; [|split; [lia|rewrite <- Hunc; exact Eu]].
+      destruct Ha as [->|[-> Em]]; [left; tauto|right; tauto].
+    + exact Haj.
+    + intros x [Hx|[]]. subst x. exact Hin.
+    + destruct Ha as [->|[-> _]]; reflexivity.
+    + intro x. destruct (Hsv1 x) as [A B]. rewrite A, B. cbn [mem negb]. rewrite orb_false_r, (Z.eqb_sym j x).
+      assert (Hx: smsg (sv s x) = match a with
+                 | AResp c _ _ => smsg (sv s x) | AAllow c => smsg (sv s x) | _ => smsg (sv s x) end) by (destruct a; reflexivity).
+      destruct (x =? j) eqn:Ex.
+      * cbn. rewrite andb_false_r. reflexivity.
+      * cbn [negb]. rewrite andb_true_r.
+        replace (match a with
+                 | AResp c _ _ => if true then if x =? c then true else smsg (sv s x) else smsg (sv s x)
+                 | AAllow c => if true then if x =? c then false else smsg (sv s x) else smsg (sv s x)
+                 | _ => smsg (sv s x) end) with (smsg (sv s x)) by (destruct Ha as [->|[-> _]]; reflexivity).
+        destruct (open (sv s x)) eqn:Eo; [rewrite andb_true_r; reflexivity|rewrite (i_msg _ _ HR x Eo); reflexivity].
+    + intro n. destruct (Hrq1 n) as [A _]. rewrite A. destruct Ha as [->|[-> _]]; reflexivity.
+    + intro n. destruct (Hrq1 n) as [A B]. rewrite A, B. destruct Ha as [->|[-> _]]; reflexivity.
+    + intros x Hx. destruct (Hsv1 x) as [A _]. rewrite A in Hx. destruct (x =? j) eqn:Ex.
+      * apply Z.eqb_eq in Ex. subst x. exact Hin.
+      * apply (i_srv _ _ HR x Hx).
+    + intro Hn. lia.
+    + intros _. rewrite Haj. exact Hoj'.
+    + intros x Hx. destruct (Hsv1 x) as [A B]. rewrite B. rewrite A in Hx. destruct (x =? j); [reflexivity|].
+      apply (i_msg _ _ HR x Hx).
+    + intros n Hn. destruct (Hrq1 n) as [A _]. rewrite A in Hn. split; [lia|apply (i_w _ _ HR n Hn)].
+Qed.
+
+Lemma facts_fail nsrv s m c : RI s m -> 0 <= c -> has_facts nsrv s m (AFail c).
+Proof.
+  intros HR Hc. destruct (open (sv s c)) eqn:Eo; [destruct (slive (sv s c)) eqn:El|].
+  1,3: apply facts_skip; [exact HR|cbn [step]; rewrite Eo, ?El; reflexivity].
+  destruct (failure nsrv s c) as [s1 b] eqn:Ef.
+  exists s1, true, b, [], no_req. split; [cbn [step]; rewrite Eo, El, Ef; reflexivity|].
+  apply (facts_failure nsrv s m (AFail c) c s s1 b HR Hc); try reflexivity; try exact Ef.
+  - left; reflexivity.
+  - intro j; tauto.
+Qed.
+
+Lemma facts_break nsrv s m c : RI s m -> 0 <= c -> has_facts nsrv s m (ABreak c).
+Proof.
+  intros HR Hc. destruct (open (sv s c)) eqn:Eo; [destruct (slive (sv s c)) eqn:El|].
+  2,3: apply facts_skip; [exact HR|cbn [step]; rewrite Eo, ?El; reflexivity].
+  set (s0 := mkS (updv (sv s) c (mkV true false 2 (smsg (sv s c)) (subs (sv s c)))) (rq s) (active s)).
+  assert (Hsv: forall j, open (sv s0 j) = open (sv s j) /\ smsg (sv s0 j) = smsg (sv s j)).
+  { intro j. unfold s0. cbn [sv]. unfold updv. destruct (j =? c) eqn:E; [apply Z.eqb_eq in E; subst; cbn; rewrite Eo; tauto|tauto]. }
+  destruct (smsg (sv s c)) eqn:Em.
+  - exists s0, true, [], [], no_req. split; [cbn [step]; rewrite Eo, El, Em; reflexivity|].
+    apply (facts_plain nsrv s m (ABreak c) s0 true (fun j => smsg (sv s j))); try exact HR; try exact I; try reflexivity.
+    + intro j. apply Hsv.
+    + intro j. apply Hsv.
+    + apply (i_msg _ _ HR).
+    + apply (i_w _ _ HR).
+  - destruct (failure nsrv s0 c) as [s1 b] eqn:Ef.
+    exists s1, true, b, [], no_req. split; [cbn [step]; rewrite Eo, El, Em; fold s0; rewrite Ef; reflexivity|].
+    apply (facts_failure nsrv s m (ABreak c) c s0 s1 b HR Hc); try reflexivity; try exact Ef; try exact Hsv.
+    right. split; [reflexivity|exact Em].
+Qed.
+
+Lemma facts_watch nsrv s m n : RI s m -> In n all_names -> has_facts nsrv s m (AWatch n).
+Proof.
+  intros HR Hn. destruct (watched (rq s n)) eqn:Ew.
+  { apply facts_skip; [exact HR|cbn [step]; rewrite Ew; reflexivity]. }
+  destruct (active s =? -1) eqn:Ea.
+  - (* first watch: channel to server 0 *)
+    apply Z.eqb_eq in Ea.
+    set (s0 := mkS (updv (sv s) 0 (mkV true false 0 false [])) (rq s) 0).
+    set (x := sv s0 0).
+    set (s1 := mkS (updv (sv s0) 0 (mkV (open x) (slive x) (ssender x) (smsg x) (ins n (subs x))))
+                   (updq (rq s0) n (mkQ true 1 [0])) 0).
+    destruct (send s1 no_req 0) as [s2 o] eqn:Es.
+    exists s2, true, [0], [], o. split.
+    { cbn [step]. rewrite Ew. assert (E: (active s =? -1) = true) by (apply Z.eqb_eq; exact Ea). rewrite E.
+      cbn [active]. fold s0. fold x. fold s1. rewrite Es. reflexivity. }
+    assert (Hsv: forall j, open (sv s2 j) = (if j =? 0 then true else open (sv s j)) /\
+                           smsg (sv s2 j) = (if j =? 0 then false else smsg (sv s j))).
+    { intro j. pose proof (send_sv s1 no_req 0 j) as H. rewrite Es in H. cbn [fst] in H. destruct H as [H1 H2].
+      rewrite H1, H2. unfold s1, x, s0. cbn [sv]. unfold updv. destruct (j =? 0); cbn; tauto. }
+    assert (Hrq: rq s2 = updq (rq s) n (mkQ true 1 [0]) /\ active s2 = 0).
+    { pose proof (send_rest s1 no_req 0) as H. rewrite Es in H. cbn [fst] in H. exact H. }
+    destruct Hrq as [Hrq Hact].
+    assert (Hall: forall j, open (sv s j) = false) by (apply (i_none _ _ HR Ea)).
+    constructor.
+    + intro j. destruct (Hsv j) as [A _]. rewrite A, Hall. cbn [mem negb orb]. rewrite andb_true_r, orb_false_r.
+      rewrite (Z.eqb_sym 0 j). destruct (j =? 0); reflexivity.
+    + cbn. split; [exists n; reflexivity|tauto].
+    + exact Hact.
+    + intros j [Hj|[]]. subst j. unfold all_srv. left; reflexivity.
+    + reflexivity.
+    + intro j. destruct (Hsv j) as [A B]. rewrite A, B. cbn [mem negb orb]. rewrite orb_false_r, (Z.eqb_sym 0 j).
+      destruct (j =? 0); cbn; [rewrite andb_false_r; reflexivity|].
+      rewrite Hall, andb_false_r. apply (i_msg _ _ HR j (Hall j)).
+    + intro k. rewrite Hrq. unfold updq. destruct (k =? n); reflexivity.
+    + intro k. rewrite Hrq. unfold updq. destruct (k =? n); reflexivity.
+    + intros j Hj. destruct (Hsv j) as [A _]. rewrite A, Hall in Hj. destruct (j =? 0) eqn:E; [|discriminate].
+      apply Z.eqb_eq in E. subst. left; reflexivity.
+    + intro H. lia.
+    + intros _. rewrite Hact. destruct (Hsv 0) as [A _]. rewrite A. reflexivity.
+    + intros j Hj. destruct (Hsv j) as [A B]. rewrite B. rewrite A in Hj. destruct (j =? 0); [reflexivity|].
+      apply (i_msg _ _ HR j Hj).
+    + intros k Hk. rewrite Hrq in Hk. unfold updq in Hk. split; [lia|].
+      destruct (k =? n) eqn:E; [apply Z.eqb_eq in E; subst; exact Hn|apply (i_w _ _ HR k Hk)].
+  - (* watch on the active channel *)
+    apply Z.eqb_neq in Ea.
+    set (c := active s). set (x := sv s c).
+    set (s1 := mkS (updv (sv s) c (mkV (open x) (slive x) (ssender x) (smsg x) (ins n (subs x))))
+                   (updq (rq s) n (mkQ true 1 [c])) c).
+    destruct (send s1 no_req c) as [s2 o] eqn:Es.
+    exists s2, true, [], [], o. split.
+    { cbn [step]. rewrite Ew. assert (E: (active s =? -1) = false) by (apply Z.eqb_neq; exact Ea). rewrite E.
+      fold c. fold x. fold s1. rewrite Es. reflexivity. }
+    assert (Hsv: forall j, open (sv s2 j) = open (sv s j) /\ smsg (sv s2 j) = smsg (sv s j)).
+    { intro j. pose proof (send_sv s1 no_req c j) as H. rewrite Es in H. cbn [fst] in H. destruct H as [H1 H2].
+      rewrite H1, H2. unfold s1, x. cbn [sv]. unfold updv. destruct (j =? c) eqn:E; [apply Z.eqb_eq in E; subst; cbn; tauto|tauto]. }
+    assert (Hrq: rq s2 = updq (rq s) n (mkQ true 1 [c]) /\ active s2 = c).
+    { pose proof (send_rest s1 no_req c) as H. rewrite Es in H. cbn [fst] in H. exact H. }
+    destruct Hrq as [Hrq Hact].
+    apply (facts_plain nsrv s m (AWatch n) s2 true (fun j => smsg (sv s j))); try exact HR; try exact I.
+    + intro j. apply Hsv.
+    + exact Hact.
+    + intro j. apply Hsv.
+    + apply (i_msg _ _ HR).
+    + intro j. reflexivity.
+    + intro k. rewrite Hrq. unfold updq. destruct (k =? n); reflexivity.
+    + intro k. rewrite Hrq. unfold updq. destruct (k =? n); reflexivity.
+    + intros k Hk. rewrite Hrq in Hk. unfold updq in Hk. split; [exact Ea|].
+      destruct (k =? n) eqn:E; [apply Z.eqb_eq in E; subst; exact Hn|apply (i_w _ _ HR k Hk)].
+Qed.
+
+Lemma facts_unwatch nsrv s m n : RI s m -> has_facts nsrv s m (AUnwatch n).
+Proof.
+  intro HR. destruct (watched (rq s n)) eqn:Ew.
+  2:{ apply facts_skip; [exact HR|cbn [step]; rewrite Ew; reflexivity]. }
+  destruct (unsub_all s no_req n (chans (rq s n))) as [s1 o] eqn:Eu.
+  pose proof (unsub_all_keeps n (chans (rq s n)) s no_req) as (Hsv & Hrq & Hact). rewrite Eu in Hsv, Hrq, Hact. cbn [fst] in *.
+  set (s2 := mkS (sv s1) (updq (rq s1) n q_none) (active s1)).
+  assert (Hw2: forall k, watched (rq s2 k) = if k =? n then false else watched (rq s k)).
+  { intro k. unfold s2. cbn [rq]. rewrite Hrq. unfold updq. destruct (k =? n); reflexivity. }
+  assert (Hu2: forall k, watched (rq s2 k) && (qstat (rq s2 k) =? 1) =
+                         if k =? n then false else watched (rq s k) && (qstat (rq s k) =? 1)).
+  { intro k. unfold s2. cbn [rq]. rewrite Hrq. unfold updq. destruct (k =? n); reflexivity. }
+  destruct (existsb (fun k => watched (rq s2 k)) all_names) eqn:Eany.
+  - exists s2, true, [], [], o. split; [cbn [step]; rewrite Ew, Eu; fold s2; rewrite Eany; reflexivity|].
+    apply (facts_plain nsrv s m (AUnwatch n) s2 true (fun j => smsg (sv s j))); try exact HR.
+    + intro j. apply Hsv.
+    + exact Hact.
+    + intro j. apply Hsv.
+    + apply (i_msg _ _ HR).
+    + intro j. reflexivity.
+    + rewrite Eany. reflexivity.
+    + exact Hw2.
+    + exact Hu2.
+    + intros k Hk. rewrite Hw2 in Hk. destruct (k =? n); [discriminate|apply (i_w _ _ HR k Hk)].
+  - set (closed := filter (fun c => open (sv s2 c)) all_srv).
+    exists (mkS (fun _ => v_closed) (rq s2) (-1)), true, [], closed, o.
+    split; [cbn [step]; rewrite Ew, Eu; fold s2; rewrite Eany; reflexivity|].
+    assert (Hcl: closed = filter (fun j => open (sv s j)) all_srv).
+    { unfold closed. apply filter_ext. intro j. unfold s2. cbn [sv]. apply Hsv. }
+    constructor; cbn [sv rq active].
+    + intro j. cbn [open v_closed mem orb]. rewrite orb_false_r, Hcl, mem_filter.
+      destruct (open (sv s j)) eqn:Eo; [|reflexivity].
+      assert (Hm: mem j all_srv = true) by (apply mem_in; apply (i_srv _ _ HR j Eo)). rewrite Hm. reflexivity.
+    + exact I.
+    + reflexivity.
+    + intros j [].
+    + rewrite Eany. cbn [andb negb]. exact Hcl.
+    + intro j. cbn. rewrite andb_false_r. reflexivity.
+    + exact Hw2.
+    + exact Hu2.
+    + intros j Hj. cbn in Hj. discriminate.
+    + intros _ j. reflexivity.
+    + intro H. contradiction.
+    + intros j _. reflexivity.
+    + intros k Hk. exfalso. pose proof Hk as Hk'. rewrite Hw2 in Hk'. destruct (k =? n) eqn:E; [discriminate|].
+      destruct (i_w _ _ HR k Hk') as [_ Hin].
+      assert (existsb (fun k => watched (rq s2 k)) all_names = true) by (apply existsb_exists; eauto). congruence.
+Qed.
+
+Lemma proc_unc (q : rsrc) (o : option (Z * Z)) :
+  let q' := if watched q then match o with Some (k, _) => mkQ true (if k =? 1 then 2 else 3) (chans q) | None => q end else q in
+  watched q' = watched q /\
+  watched q' && (qstat q' =? 1) = watched q && (qstat q =? 1) && match o with Some _ => false | None => true end.
+Proof.
+  destruct (watched q) eqn:Ew; cbn zeta.
+  - destruct o as [[k c]|]; cbn [watched qstat]; rewrite ?Ew.
+    + split; [reflexivity|]. destruct (k =? 1); cbn; rewrite andb_false_r; reflexivity.
+    + split; [reflexivity|]. rewrite andb_true_r. reflexivity.
+  - rewrite Ew. cbn. tauto.
+Qed.
+
+Lemma facts_resp nsrv s m c v rs : RI s m -> 0 <= c -> has_facts nsrv s m (AResp c v rs).
+Proof.
+  intros HR Hc. destruct (open (sv s c)) eqn:Eo; [destruct (slive (sv s c)) eqn:El|].
+  2,3: apply facts_skip; [exact HR|cbn [step]; rewrite Eo, ?El; reflexivity].
+  set (s0 := mkS (updv (sv s) c (mkV true true (ssender (sv s c)) true (subs (sv s c)))) (rq s) (active s)).
+  assert (Hsv: forall j, open (sv s0 j) = open (sv s j) /\ smsg (sv s0 j) = if j =? c then true else smsg (sv s j)).
+  { intro j. unfold s0. cbn [sv]. unfold updv. destruct (j =? c) eqn:E; [apply Z.eqb_eq in E; subst; cbn; rewrite Eo; tauto|tauto]. }
+  assert (HX: forall j, open (sv s j) = false -> (if j =? c then true else smsg (sv s j)) = false).
+  { intros j Hj. destruct (j =? c) eqn:E; [apply Z.eqb_eq in E; subst; congruence|apply (i_msg _ _ HR j Hj)]. }
+  destruct (active s <? c) eqn:E1.
+  - (* below the active server: ignored *)
+    exists s0, true, [], [], (updo no_req c (subs (sv s c))).
+    split; [cbn [step]; rewrite Eo, El; cbn [andb active]; rewrite E1; reflexivity|].
+    apply Z.ltb_lt in E1.
+    assert (E2: (c <? active s) = false) by (apply Z.ltb_ge; lia).
+    assert (E3: (c <=? active s) = false) by (apply Z.leb_gt; lia).
+    apply (facts_plain nsrv s m (AResp c v rs) s0 true (fun j => if j =? c then true else smsg (sv s j))); try exact HR; try reflexivity.
+    + intro j. apply Hsv.
+    + intro j. apply Hsv.
+    + exact HX.
+    + cbn [andb]. exact E2.
+    + intro n. cbn [andb]. rewrite E3. reflexivity.
+    + apply (i_w _ _ HR).
+  - destruct (c <? active s) eqn:E2.
+    + (* above the active server: revert *)
+      apply Z.ltb_lt in E2.
+      set (closed := filter (fun j => (c <? j) && open (sv s0 j)) all_srv).
+      set (s1 := mkS (fun j => if c <? j then v_closed else sv s0 j)
+                     (fun n => let q := rq s0 n in mkQ (watched q) (qstat q) (filter (fun j => j <=? c) (chans q))) c).
+      set (s2 := mkS (sv s1)
+                     (fun n => let q := rq s1 n in
+                               if watched q then match last_named n rs with
+                                                 | Some (k, _) => mkQ true (if k =? 1 then 2 else 3) (chans q)
+                                                 | None => q end else q) (active s1)).
+      exists s2, true, [], closed, (updo no_req c (subs (sv s c))).
+      split.
+      { cbn [step]. rewrite Eo, El. cbn [andb active]. rewrite E1.
+        assert (E2': (c <? active s) = true) by (apply Z.ltb_lt; exact E2). rewrite E2'. reflexivity. }
+      assert (E2': (c <? active s) = true) by (apply Z.ltb_lt; exact E2).
+      assert (E3: (c <=? active s) = true) by (apply Z.leb_le; lia).
+      assert (Hcl: closed = filter (fun j => (c <? j) && open (sv s j)) all_srv).
+      { unfold closed. apply filter_ext. intro j. rewrite (proj1 (Hsv j)). reflexivity. }
+      assert (Ho2: forall j, open (sv s2 j) = if c <? j then false else open (sv s j)).
+      { intro j. unfold s2, s1. cbn [sv]. destruct (c <? j); [reflexivity|apply Hsv]. }
+      assert (Hm2: forall j, smsg (sv s2 j) = if c <? j then false else if j =? c then true else smsg (sv s j)).
+      { intro j. unfold s2, s1. cbn [sv]. destruct (c <? j); [reflexivity|apply Hsv]. }
+      assert (Hq: forall n, watched (rq s2 n) = watched (rq s n) /\
+                  watched (rq s2 n) && (qstat (rq s2 n) =? 1) =
+                  watched (rq s n) && (qstat (rq s n) =? 1) && match last_named n rs with Some _ => false | None => true end).
+      { intro n. unfold s2. cbn [rq]. 
+        pose proof (proc_unc (rq s1 n) (last_named n rs)) as H. cbn zeta in H. unfold s1 at 3 4 5 6 in H. cbn [rq watched qstat] in H.
+        unfold s0 in H. cbn [rq] in H. exact H. }
+      constructor.
+      * intro j. rewrite Ho2. cbn [mem orb]. rewrite orb_false_r, Hcl, mem_filter.
+        destruct (c <? j); cbn [andb].
+        -- destruct (open (sv s j)) eqn:Eoj; [|reflexivity].
+           assert (Hm: mem j all_srv = true) by (apply mem_in; apply (i_srv _ _ HR j Eoj)). rewrite Hm. reflexivity.
+        -- rewrite andb_false_r. cbn. rewrite andb_true_r. reflexivity.
+      * exact I.
+      * cbn [andb]. rewrite E2'. reflexivity.
+      * intros j [].
+      * cbn [andb]. rewrite E2'. exact Hcl.
+      * intro j. rewrite Hm2, Ho2. cbn [mem negb]. rewrite andb_true_r.
+        destruct (c <? j); [rewrite andb_false_r; reflexivity|].
+        destruct (open (sv s j)) eqn:Eoj; [rewrite andb_true_r; reflexivity|rewrite (HX j Eoj); reflexivity].
+      * intro n. apply Hq.
+      * intro n. cbn [andb]. rewrite E3. apply Hq.
+      * intros j Hj. rewrite Ho2 in Hj. destruct (c <? j); [discriminate|apply (i_srv _ _ HR j Hj)].
+      * intro H. unfold s2, s1 in H. cbn [active] in H. lia.
+      * intros _. unfold s2 at 2, s1 at 2. cbn [active]. rewrite Ho2, Z.ltb_irrefl. exact Eo.
+      * intros j Hj. rewrite Hm2. rewrite Ho2 in Hj. destruct (c <? j); [reflexivity|apply HX; exact Hj].
+      * intros n Hn. rewrite (proj1 (Hq n)) in Hn. split; [unfold s2, s1; cbn [active]; lia|apply (i_w _ _ HR n Hn)].
+    + (* from the active server *)
+      apply Z.ltb_ge in E1, E2. assert (Hca: c = active s) by lia.
+      set (s2 := mkS (sv s0)
+                     (fun n => let q := rq s0 n in
+                               if watched q then match last_named n rs with
+                                                 | Some (k, _) => mkQ true (if k =? 1 then 2 else 3) (chans q)
+                                                 | None => q end else q) (active s0)).
+      exists s2, true, [], [], (updo no_req c (subs (sv s c))).
+      assert (E1': (active s <? c) = false) by (apply Z.ltb_ge; lia).
+      assert (E2': (c <? active s) = false) by (apply Z.ltb_ge; lia).
+      assert (E3: (c <=? active s) = true) by (apply Z.leb_le; lia).
+      split; [cbn [step]; rewrite Eo, El; cbn [andb active]; rewrite E1', E2'; reflexivity|].
+      assert (Hq: forall n, watched (rq s2 n) = watched (rq s n) /\
+                  watched (rq s2 n) && (qstat (rq s2 n) =? 1) =
+                  watched (rq s n) && (qstat (rq s n) =? 1) && match last_named n rs with Some _ => false | None => true end).
+      { intro n. unfold s2. cbn [rq]. 
+        pose proof (proc_unc (rq s0 n) (last_named n rs)) as H. cbn zeta in H. unfold s0 in H. cbn [rq] in H. exact H. }
+      apply (facts_plain nsrv s m (AResp c v rs) s2 true (fun j => if j =? c then true else smsg (sv s j))); try exact HR; try reflexivity.
+      * intro j. apply Hsv.
+      * intro j. apply Hsv.
+      * exact HX.
+      * cbn [andb]. exact E2'.
+      * intro n. apply Hq.
+      * intro n. cbn [andb]. rewrite E3. apply Hq.
+      * intros n Hn. rewrite (proj1 (Hq n)) in Hn. apply (i_w _ _ HR n Hn).
+Qed.
+
+Lemma has_facts_all nsrv s m a : RI s m -> aop_wf a -> has_facts nsrv s m a.
+Proof.
+  intros HR Hwf. destruct a; cbn [aop_wf] in Hwf.
+  - apply facts_watch; assumption.
+  - apply facts_unwatch; assumption.
+  - apply facts_allow; assumption.
+  - apply facts_fail; assumption.
+  - apply facts_resp; assumption.
+  - apply facts_break; assumption.
+  - apply facts_skip; [exact HR|reflexivity].
+Qed.
+
+Lemma decode_wf nsrv w : aop_wf (decode nsrv w).
+Proof.
+  unfold decode. destruct w as [|c a]; [exact I|].
+  repeat match goal with
+  | |- context [if ?b then _ else _] => destruct b eqn:?
+  | |- context [match ?l with [] => _ | _ :: _ => _ end] => destruct l
+  | |- context [match triples ?l with _ => _ end] => destruct (triples l) eqn:?
+  end; cbn [aop_wf]; try exact I;
+  rewrite ?andb_true_iff, ?Z.leb_le, ?Z.ltb_lt in *; unfold all_names; cbn [In]; lia.
+Qed.
+
+Lemma take_words_app a b : take_words (length a) (a ++ b) = Some (a, b).
+Proof. induction a as [|x a IH]; cbn; [reflexivity|]. rewrite IH. reflexivity. Qed.
+Lemma z2b_b2z (b : bool) : z2b (b2z b) = b.
+Proof. destruct b; reflexivity. Qed.
+
+Lemma bridge nsrv : forall ops s m i, RI s m ->
+  core_true (clauses_from nsrv m i ops (run_from nsrv s ops)) = true.
+Proof.
+  induction ops as [|op ops IH]; intros s m i HR; [reflexivity|].
+  destruct (has_facts_all nsrv s m (decode nsrv op) HR (decode_wf nsrv op)) as (s' & ap & built & closed & o & Hs & HF).
+  cbn [run_from clauses_from]. rewrite Hs. unfold emit. cbn [app].
+  set (rqs := flat_map _ all_srv).
+  rewrite Nat2Z.id, take_words_app, z2b_b2z.
+  pose proof (facts_to_monitor nsrv s m (decode nsrv op) s' ap built closed i rqs HR (decode_wf nsrv op) HF) as H.
+  destruct (mon_step i m (decode nsrv op) ap built closed rqs) as [m' cl]. destruct H as [Hc HR'].
+  unfold core_true in *. cbn [forallb app fst snd Z.eqb andb orb]. rewrite forallb_app, Hc. cbn [andb].
+  apply IH. exact HR'.
+Qed.
+
+Lemma model_trace_holds : forall cfg ops,
+  exists obs, run cfg ops = Some obs /\ holds_core cfg ops obs = true.
+Proof.
+  intros cfg ops. eexists. split; [reflexivity|]. unfold holds_core, clauses.
+  apply (bridge (nsrv_of cfg) ops init mon_init 0 RI_init).
+Qed.
